@@ -64,7 +64,15 @@ def oracle_violated(s1, s2, s3):
     return FACTOR_DEN * (s3 - s2) > FACTOR_NUM * (s2 - s1)
 
 
-COUNTERS = ("parser-calls", "all-python-calls", "calls-of-one-function", "bulk-container-items")
+COUNTERS = ("parser-calls", "all-python-calls", "calls-of-one-function", "bulk-container-items",
+            "lines-of-one-function")
+LINE_EXCESS_MIN = 100  # executed lines over the allowance before one function's count matters
+# Looking a name up walks the open scopes innermost-first: O(open scopes) per
+# identifier by design, so a family that puts one identifier into each of k
+# nested brace scopes executes k^2/2 iterations of that 3-line loop (struct
+# nesting to depth 32: ~1500 lines of 60000).  Known and accepted (DESIGN, C16
+# assumptions: 'scope-stack lookup'); reported to the lead; not counted here.
+LINE_EXEMPT = {"_is_type_in_scope"}
 FUNC_EXCESS_MIN = 24  # calls over the oracle's allowance before one function's count matters
 BULK_EXCESS_MIN = 64  # container items over the allowance
 
@@ -182,6 +190,30 @@ def eval_family(kind, key, sizes, exact=False):
                 res.update(status="superlinear", window=w, decided_by=COUNTERS[3], origin=[top],
                            bulk_callers=by)
                 break
+    if detail and res["status"] == "linear" and len(steps) >= 3:
+        # (5) source lines executed per parser function (LINE events): sees a
+        # loop that calls nothing - e.g. re-walking a declarator chain for
+        # every suffix
+        per_lines = []
+        for size in sizes[: len(steps)]:
+            o, ln = F.measure_lines(family_text(kind, key, size))
+            runs += 1
+            per_lines.append(ln)
+        worst = None
+        for w in range(len(per_lines) - 2):
+            a, b, c = per_lines[w : w + 3]
+            for fn, c3 in c.items():
+                if fn in LINE_EXEMPT:
+                    continue
+                c1, c2 = a.get(fn, 0), b.get(fn, 0)
+                excess = (c3 - c2) - FACTOR_NUM * (c2 - c1) / FACTOR_DEN
+                if excess >= LINE_EXCESS_MIN and (worst is None or excess > worst[0]):
+                    worst = (excess, fn, w, [c1, c2, c3])
+            if worst:
+                break
+        if worst:
+            res.update(status="superlinear", window=worst[2], decided_by=COUNTERS[4],
+                       function=worst[1], function_lines=worst[3], origin=[worst[1]])
     res["sizes"] = list(sizes[: len(steps)])
     res["steps"] = steps
     res["totals"] = totals
@@ -660,6 +692,9 @@ def describe(r):
         if r["decided_by"] == COUNTERS[2]:
             d["function"] = r.get("function")
             s = r.get("function_calls") or r["steps"][w : w + 3]
+        elif r["decided_by"] == COUNTERS[4]:
+            d["function"] = r.get("function")
+            s = r.get("function_lines") or r["steps"][w : w + 3]
         elif r["decided_by"] == COUNTERS[3]:
             d["bulk_container_items"] = r.get("bulk")
             d["bulk_items_by_calling_function_at_largest_size"] = r.get("bulk_callers")
@@ -1119,6 +1154,9 @@ def replay(rep):
         if r["decided_by"] == COUNTERS[2]:
             print("function:", r["function"])
             s = r["function_calls"]
+        elif r["decided_by"] == COUNTERS[4]:
+            print("function:", r["function"], "(source lines executed)")
+            s = r["function_lines"]
         elif r["decided_by"] == COUNTERS[3]:
             print("bulk container items:", r["bulk"], "by calling function:", r.get("bulk_callers"))
             s = r["bulk"][w : w + 3]
